@@ -146,6 +146,21 @@ int main(void)
 	}
 	CHECK(drbg_calls == 1 && drbg_len == 48, "random substitute drawn in both cases");
 	for (int i = 0; i < 48; i++) CHECK(epms[i] == 0, "premaster wiped");
+#elif PART == 4
+	/* do_static_ecdh: the client's certified point (from the validator) goes through the same
+	   "random substitute on failure" path as an explicit ClientKeyExchange point */
+	unsigned char qpt[40];
+	ND_BYTES(qpt, 40);
+	ND_BYTES(kx_plain, 40);
+	ND_BYTES(drbg_out, 80);
+	kx_ok = ND_U8() & 1; kx_outlen = 32;
+	the_key.key_type = BR_KEYTYPE_EC;
+	the_key.key.ec.curve = 23; the_key.key.ec.q = qpt; the_key.key.ec.qlen = 33;
+	int prf = ND_U8();
+	do_static_ecdh(&sctx, prf);
+	CHECK(kx_calls == 1 && cm_calls == 1 && cm_len == 32 && cm_prf == prf, "one key exchange over the certified point, one master-secret computation");
+	for (size_t i = 0; i < 32; i++) CHECK(cm_pms[i] == (kx_ok ? kx_plain[i] : drbg_out[i]), "static ECDH: shared secret used only when the key exchange succeeded; random otherwise");
+	if (kx_ok) { WITNESS_POINT("static ecdh ok"); } else { WITNESS_POINT("static ecdh bad"); }
 #else
 	unsigned char cpoint[133];
 	ND_BYTES(cpoint, 40);
